@@ -14,5 +14,7 @@ CONSTANTS
   Step = 1
   RbfDepth = 4
   TightCap = FALSE
+  PeerDepth = 4
+  PeerWide = FALSE
 INVARIANTS Synced TxInvariants
 CHECK_DEADLOCK FALSE
